@@ -11,6 +11,7 @@ Abstractly interprets byte-producing functions and yields a *production*: a list
   ('rep', coll, loopid, segs)  for-loop over `coll`, in order
 Scalar expressions are small tuple trees (see `ev`).  Anything that touches a tracked buffer in a way the
 interpreter does not understand raises Unanalysable (callers fail closed)."""
+import os
 import re
 
 
@@ -707,6 +708,11 @@ class Interp:
                     return Leaf("fall", UNIT, en)
                 tree = self.map_fall(tree, step)
             return tree
+        c2 = coll
+        while c2[0] == "mcall" and c2[1].split("::")[-1] in ("iter", "into_iter", "copied", "cloned") and len(c2) > 2:
+            c2 = c2[2]                    # `for x in list.iter().copied()` iterates the list itself
+        if c2[0] == "list":
+            coll = c2
         if coll[0] == "list":
             return self.exec_for_list(coll, pat, body, env)
         self.loopn += 1
@@ -899,6 +905,20 @@ class Interp:
                     key = key + (name.split("::")[-1],)      # the sorting method (stable or not) is part of the schedule's meaning
                 env[vid] = ("list", [("perm", key, cur[1])])
                 return Leaf("fall", UNIT, env)
+            if name.endswith("::extend"):
+                # `list.extend(queue.iter().enumerate().map(|(i, s)| item))` is `for (i, s) in queue.iter().enumerate() { list.push(item) }`
+                if arg[0] == "mcall" and arg[1].split("::")[-1] == "map" and len(arg[3]) == 1 and arg[3][0][0] == "lambda" and arg[3][0][2] != ("?",):
+                    base, enumerated = arg[2], False
+                    while base[0] == "mcall" and base[1].split("::")[-1] in ("iter", "into_iter", "enumerate", "copied", "cloned") and len(base) > 2:
+                        enumerated = enumerated or base[1].endswith("enumerate")
+                        base = base[2]
+                    lam = arg[3][0]
+                    self.loopn += 1
+                    lid = "L%d" % self.loopn
+                    item = subst_lid(lam[2], lam[1], lid)
+                    env[vid] = ("list", cur[1] + [("rep", base, lid, [("item", item)])])
+                    return Leaf("fall", UNIT, env)
+                raise Unanalysable("unsupported list extend argument %s" % show(arg)[:60])
             if not name.endswith("::push"):
                 raise Unanalysable("unsupported list mutation " + name)
             env[vid] = ("list", cur[1] + [("item", arg)])
